@@ -3118,11 +3118,15 @@ nlopt_result bobyqa(int n, int npt, double *x,
             return NLOPT_INVALID_ARGS;
         }
 
+    /* xs[0..n) is scratch for rescale_fun, xs[n..2n) keeps the caller's x so that
+       a call that is rejected (or runs out of memory) before any evaluation
+       hands it back unchanged */
+    xs = (double *) malloc(sizeof(double) * (2 * U(n)));
+    if (!xs) { free(s); return NLOPT_OUT_OF_MEMORY; }
+    memcpy(xs + n, x, sizeof(double) * U(n));
+
     /* this statement must go before goto done, so that --x occurs */
     nlopt_rescale(U(n), s, x, x); --x;
-
-    xs = (double *) malloc(sizeof(double) * (U(n)));
-    if (!xs) { ret = NLOPT_OUT_OF_MEMORY; goto done; }
 
     sxl = nlopt_new_rescaled(U(n), s, xl);
     if (!sxl) { ret = NLOPT_OUT_OF_MEMORY; goto done; }
@@ -3290,9 +3294,11 @@ done:
     free(w0);
     free(sxl);
     free(sxu);
-    free(xs);
     ++x; nlopt_unscale(U(n), s, x, x);
     clamp_to_bounds(n, x, xl0, xu0);
+    if (ret == NLOPT_INVALID_ARGS || ret == NLOPT_OUT_OF_MEMORY)
+        memcpy(x, xs + n, sizeof(double) * U(n)); /* nothing was evaluated */
+    free(xs);
     free(s);
     return ret;
 } /* bobyqa_ */
